@@ -450,28 +450,37 @@ pub fn replay_case(
         // strings that are the authentic token up to the tolerated differences (an added empty footer
         // segment, a re-encoded ECDSA signature): a chain of concrete edits may arrive there by chance
         // (flip a bit, add '.', flip it back) although the abstract chain does not
-        let mut tolerated: Vec<String> = vec![tok.clone()];
-        if pr.v == 3 && pr.public {
-            if let Some(p) = Parts::parse(&tok) {
-                if let Some(d) = unb64(&p.payload) {
-                    if d.len() >= 96 {
-                        let n = d.len();
-                        let mut m = d[..n - 48].to_vec();
-                        m.extend(p384_negate(&d[n - 48..]));
-                        tolerated.push(p.with_payload_bytes(&m));
+        let forms = |base: &String| -> Vec<String> {
+            let mut tolerated: Vec<String> = vec![base.clone()];
+            if pr.v == 3 && pr.public {
+                if let Some(p) = Parts::parse(base) {
+                    if let Some(d) = unb64(&p.payload) {
+                        if d.len() >= 96 {
+                            let n = d.len();
+                            let mut m = d[..n - 48].to_vec();
+                            m.extend(p384_negate(&d[n - 48..]));
+                            tolerated.push(p.with_payload_bytes(&m));
+                        }
                     }
                 }
             }
-        }
-        for t in tolerated.clone() {
-            if t.split('.').count() == 3 {
-                tolerated.push(format!("{}.", t));
+            for t in tolerated.clone() {
+                if t.split('.').count() == 3 {
+                    tolerated.push(format!("{}.", t));
+                }
             }
-        }
+            tolerated
+        };
+        let tolerated = forms(&tok);
         if !case.tolerated {
             toks.retain(|t| !tolerated.contains(t));
         }
-        toks.retain(|t| *t != tok && !others.values().any(|o| o == t));
+        // ... and the same for the other authentic tokens the splices draw from: a chain may assemble
+        // one of them completely and then apply a tolerated edit (found by seed 1: splice body from the
+        // key variant + foot-add-empty = the token of key k2 with an empty footer segment, which key k2
+        // rightly opens)
+        let other_forms: Vec<String> = others.values().flat_map(|o| forms(o)).collect();
+        toks.retain(|t| *t != tok && !other_forms.contains(t));
         if toks.len() > cfg.max_tokens {
             // deterministic thinning that keeps the first and last elements
             let step = toks.len() as f64 / cfg.max_tokens as f64;
